@@ -307,7 +307,8 @@ def case(ctx, kind, factory=None, sk=None, g=False, sigma='scalar', recipe=None)
         r, f = funcs.build(ctx, recipe, sk)
         try:
             op = f.proximal(ctx.real('sigma', pos=True))
-        except NotImplementedError:
+        except (NotImplementedError, ValueError):
+            # not offered / documented refusal (e.g. negative multiple of a functional)
             ctx.fact('no-proximal-offered', True)
             return
         if isinstance(op.domain, Field):
